@@ -63,6 +63,8 @@ def gen_last_drop(rng):
                     if all(p == "Rk" for p in pat) or n == 1:
                         # the same, the last handle going away while its thread unwinds from a panic
                         cases.append("Q %s 1 %s" % (cap, ",".join(pre[:-1] + ["U0"] + tail)))
+                        # ... or on a fresh thread without a name that simply ends (the harness's own thread is "main")
+                        cases.append("Q %s 4 %s" % (cap, ",".join(pre[:-1] + ["T0"] + tail)))
     return cases
 
 
@@ -96,7 +98,7 @@ def gen_zero_answers():
     not a failure - the handler must stay silent, the counters and the delivery order are as for Ok(len)"""
     cases = []
     for cap in ("1", "3", "u"):
-        for handler in ("0", "1", "2", "3"):
+        for handler in ("0", "1", "2", "3", "4"):
             cases.append("Q %s %s E0,Rz,S,E0,E0,Rz,Re5,S,E0,Rz,Rp,E0,Rz,S,D0" % (cap, handler))
             cases.append("Q %s %s E0,Rz,E0,Rz,E0,Rz,S,C0,D0,E1,Rz,D1" % (cap, handler))
             # ... or Ok(n) for some other n: a count of datagrams, the bytes of a truncated send, more than the length
@@ -110,7 +112,7 @@ def gen_os_errors():
     alternating, with accepted metrics in between: every failure reaches the handler"""
     cases = []
     for cap in ("2", "u"):
-        for handler in ("0", "1", "2", "3"):
+        for handler in ("0", "1", "2", "3", "4"):
             cases.append("Q %s %s E0,Ro111,E0,Ro111,E0,Ro111,S,E0,Rk,E0,Ro111,E0,Ro105,E0,Ro111,S,D0" % (cap, handler))
             cases.append("Q %s %s E0,E0,Ro11,Ro11,E0,Re5,E0,Ro11,E0,Rp,E0,Ro11,E0,Ro11,S,D0" % (cap, handler))
     return cases
@@ -145,7 +147,7 @@ def gen_patterns(rng):
     for n in range(1, 6):
         for pat in itertools.product(["Rk", "Re%d", "Rp"], repeat=n):
             pat = [p % (8 if i % 2 == 0 else i + 1) if "%" in p else p for i, p in enumerate(pat)]
-            for handler in ("0", "1", "2", "3"):
+            for handler in ("0", "1", "2", "3", "4"):
                 if handler in "03" and n > 3:
                     continue
                 if handler == "2" and n > 4:
@@ -160,7 +162,7 @@ def gen_random(rng, n, maxlen):
     cases = []
     for _ in range(n):
         cap = rng.choice(CAPS + ["3", "5"])
-        handler = rng.choice("0123")
+        handler = rng.choice("01234")
         live, total, emits, rels = [0], 1, 0, 0
         used_empty = False
         seq = []
@@ -317,8 +319,8 @@ def as_plain_drop(case):
     if t[0] == "QD":                # another queuing sink lives in the process: nothing to the model or the clauses
         t = ["Q"] + t[2:]
     if t[0] == "Q":
-        t[2] = {"2": "1", "3": "0"}.get(t[2], t[2])        # how the sink was constructed: with or without a handler
-        t[3] = re.sub(r"U(\d+)", r"D\1", t[3])
+        t[2] = {"2": "1", "3": "0", "4": "1"}.get(t[2], t[2])        # how the sink was constructed: with or without a handler
+        t[3] = re.sub(r"[UT](\d+)", r"D\1", t[3])
         t[3] = re.sub(r"E(\d+)[elusd]", r"E\1", t[3])      # the payload's shape is nothing to the model or the clauses
         t[3] = re.sub(r"\bRz\b", "Rk", t[3])             # accepted is accepted, whatever count the wrapped sink answers
         t[3] = re.sub(r"\bRn\d+\b", "Rk", t[3])
